@@ -30,6 +30,8 @@ def run(tier, seed):
         else:
             rho = p02.rand_rho(rng, n, kind)
         tr = mudslide.Ehrenfest(model, x, p0, rho, state0=0, dt=1.0)
+        if int(tr.state) != 0:
+            bad.append(dict(failed="the active-state label of an Ehrenfest trajectory is the one it was given (state0=0 with a %s density matrix: label %d)" % (kind, int(tr.state)), case=dict(model=mname, initial=kind)))
         el = model.update(x)
         tr.electronics = el
         try:
@@ -67,6 +69,13 @@ def run(tier, seed):
         res.count("label-probe"); res.extra.setdefault("label_probe_final_populations", {})["%s/p%g/s%d" % (mname, p0[0], st0)] = pops.tolist()
         if set(int(s_["active"]) for s_ in logl) != {st0}:
             bad.append(dict(failed="the active-state label never changes in an Ehrenfest trajectory (final populations %r)" % pops.tolist(), case=dict(model=mname, x0=x0, p0=p0, state0=st0)))
+    # the label is the one given, whatever the populations of the initial density matrix are, and stays
+    for pops_, st0 in [((0.2, 0.8), 0), ((0.2, 0.8), 1), ((0.8, 0.2), 0), ((0.8, 0.2), 1), ((0.5, 0.5), 0)]:
+        c_ = np.sqrt(np.array(pops_, dtype=complex)) * np.array([1.0, np.exp(0.3j)])
+        logm = mudslide.Ehrenfest(M["simple"](), [-2.0], [20.0], np.outer(c_, c_.conj()), state0=st0, dt=2.0, max_steps=30).simulate()
+        res.count("label-probe/matrix-rho0")
+        if set(int(s_["active"]) for s_ in logm) != {st0}:
+            bad.append(dict(failed="the active-state label never changes in an Ehrenfest trajectory and is the one given (initial populations %r, state0=%d, logged labels %r)" % (pops_, st0, sorted(set(int(s_["active"]) for s_ in logm))), case=dict(pops=pops_, state0=st0)))
     for mname, x0, p0, T in [("simple", [-3.0], [10.0], 1600.0), ("dual", [-4.0], [20.0], 900.0)] + ([] if tier == "quick" else [("super", [-5.0], [10.0], 2000.0)]):
         drifts = []
         for dt in (8.0, 4.0, 2.0):
@@ -94,7 +103,7 @@ def run(tier, seed):
     corr = [meta[i] for i in failing[:4]]
     # ---- whole passes of real Ehrenfest runs (coherent initial rho) replayed through Model/Traj.step_eh
     import ptraj
-    tc, tmeta = ptraj.collect(res, rng, 7 if tier == "quick" else 150, 40 if tier == "quick" else 1500, kind="eh")
+    tc, tmeta = ptraj.collect(res, rng, 8 if tier == "quick" else 150, 64 if tier == "quick" else 1500, kind="eh")
     f4, e4 = run_case_check("C08traj", ptraj.PRELUDE_T, "caseE", "chkE", tc, per_file=8, timeout=1500)
     for e in e4:
         res.violation("model evaluation failed (coqc)", dict(kind="coqc-error", log=e, no_failing_input_found=True))
